@@ -29,6 +29,10 @@ def build(d):
         return d["v"]
     if t == "opaque":
         return object()
+    if t == "now_s1900":
+        import datetime
+        d = datetime.datetime.utcnow() - datetime.datetime(1900, 1, 1)
+        return d.days * 86400 + d.seconds + int(d.get("offset", 0) if isinstance(d, dict) else 0)
     if t == "datetime":
         import datetime
         return datetime.datetime(1, 1, 1) + datetime.timedelta(microseconds=int(d["us"]))
@@ -90,6 +94,8 @@ def main():
             val = build(v)
             setattr(owner, attr, val)
             ns["state_" + attr] = val
+        if c.setup_spec is not None:
+            call_spec(c.setup_spec, ns)
         old = types.SimpleNamespace(**{k: _safe_copy(v) for k, v in ns.items()})
         call_args = [ns[p] for p in c.args if not p.startswith("_")]
         box = {}
